@@ -23,12 +23,14 @@ pub struct OpOut {
     pub items: Vec<u64>,
     pub completed: bool,
     pub err: Option<String>,
+    /// Ok items an iterator yields when it is polled again after its first error
+    pub after_err: Vec<u64>,
 }
 impl OpOut {
     fn scalar(r: Result<String, String>) -> Self {
         match r {
-            Ok(s) => OpOut { items: vec![hash_str(&s)], completed: true, err: None },
-            Err(e) => OpOut { items: vec![], completed: false, err: Some(e) },
+            Ok(s) => OpOut { items: vec![hash_str(&s)], completed: true, err: None, after_err: vec![] },
+            Err(e) => OpOut { items: vec![], completed: false, err: Some(e), after_err: vec![] },
         }
     }
     /// "either fails or returns exactly what it returns on the unaltered file"
@@ -37,6 +39,11 @@ impl OpOut {
             // whatever was delivered before the failure must be baseline data
             if self.items.len() > base.items.len() || self.items[..] != base.items[..self.items.len()] {
                 return Err(format!("delivered {} items before failing that are not a prefix of the {} baseline items", self.items.len(), base.items.len()));
+            }
+            // data handed out when the same iterator is polled again after the failure must be the next baseline items
+            let k = self.items.len();
+            if self.after_err.len() > base.items.len().saturating_sub(k) || self.after_err[..] != base.items[k..k + self.after_err.len().min(base.items.len().saturating_sub(k))] {
+                return Err(format!("polled again after its failure the iterator delivered {} items that are not the next baseline items", self.after_err.len()));
             }
             Ok(())
         } else if self == base || (base.err.is_some() && self.items.len() <= base.items.len() && self.items[..] == base.items[..self.items.len()]) {
@@ -109,16 +116,17 @@ pub fn run_op<T: Read + Seek>(rd: &mut E57Reader<T>, op: &ReadOp, free: &[(u64, 
         ReadOp::Raw { cloud, take } => {
             let pcs = rd.pointclouds();
             if pcs.is_empty() {
-                return OpOut { items: vec![], completed: true, err: None };
+                return OpOut { items: vec![], completed: true, err: None, after_err: vec![] };
             }
             let pc = &pcs[*cloud as usize % pcs.len()];
             let it = match rd.pointcloud_raw(pc) {
                 Ok(i) => i,
-                Err(e) => return OpOut { items: vec![], completed: false, err: Some(e.to_string()) },
+                Err(e) => return OpOut { items: vec![], completed: false, err: Some(e.to_string()), after_err: vec![] },
             };
-            let mut out = OpOut { items: vec![], completed: false, err: None };
+            let mut out = OpOut { items: vec![], completed: false, err: None, after_err: vec![] };
             let limit = (*take as u64).min(pc.records.saturating_add(2));
-            for item in it {
+            let mut it = it;
+            while let Some(item) = it.next() {
                 if out.items.len() as u64 >= limit {
                     return out; // abandoned early
                 }
@@ -126,6 +134,12 @@ pub fn run_op<T: Read + Seek>(rd: &mut E57Reader<T>, op: &ReadOp, free: &[(u64, 
                     Ok(p) => out.items.push(hash_str(&format!("{:?}", p.iter().map(val_from_e57).collect::<Vec<_>>()))),
                     Err(e) => {
                         out.err = Some(e.to_string());
+                        // a caller may poll again: whatever comes then is recorded too
+                        for _ in 0..3 {
+                            if let Some(Ok(p)) = it.next() {
+                                out.after_err.push(hash_str(&format!("{:?}", p.iter().map(val_from_e57).collect::<Vec<_>>())));
+                            }
+                        }
                         return out;
                     }
                 }
@@ -136,17 +150,17 @@ pub fn run_op<T: Read + Seek>(rd: &mut E57Reader<T>, op: &ReadOp, free: &[(u64, 
         ReadOp::Simple { cloud, opts, take } => {
             let pcs = rd.pointclouds();
             if pcs.is_empty() {
-                return OpOut { items: vec![], completed: true, err: None };
+                return OpOut { items: vec![], completed: true, err: None, after_err: vec![] };
             }
             let pc = &pcs[*cloud as usize % pcs.len()];
             let mut it = match rd.pointcloud_simple(pc) {
                 Ok(i) => i,
-                Err(e) => return OpOut { items: vec![], completed: false, err: Some(e.to_string()) },
+                Err(e) => return OpOut { items: vec![], completed: false, err: Some(e.to_string()), after_err: vec![] },
             };
             set_opts(&mut it, Opts::from_bits(*opts));
-            let mut out = OpOut { items: vec![], completed: false, err: None };
+            let mut out = OpOut { items: vec![], completed: false, err: None, after_err: vec![] };
             let limit = (*take as u64).min(pc.records.saturating_add(2));
-            for item in it {
+            while let Some(item) = it.next() {
                 if out.items.len() as u64 >= limit {
                     return out;
                 }
@@ -154,6 +168,11 @@ pub fn run_op<T: Read + Seek>(rd: &mut E57Reader<T>, op: &ReadOp, free: &[(u64, 
                     Ok(p) => out.items.push(hash_str(&format!("{p:?}"))),
                     Err(e) => {
                         out.err = Some(e.to_string());
+                        for _ in 0..3 {
+                            if let Some(Ok(p)) = it.next() {
+                                out.after_err.push(hash_str(&format!("{p:?}")));
+                            }
+                        }
                         return out;
                     }
                 }
@@ -164,13 +183,13 @@ pub fn run_op<T: Read + Seek>(rd: &mut E57Reader<T>, op: &ReadOp, free: &[(u64, 
         ReadOp::Blob { which } => {
             let blobs = blob_list(rd, free);
             if blobs.is_empty() {
-                return OpOut { items: vec![], completed: true, err: None };
+                return OpOut { items: vec![], completed: true, err: None, after_err: vec![] };
             }
             let b = &blobs[*which as usize % blobs.len()];
             let mut buf = Vec::new();
             match rd.blob(b, &mut buf) {
-                Ok(n) => OpOut { items: vec![n, hash_str(&format!("{buf:?}"))], completed: true, err: None },
-                Err(e) => OpOut { items: vec![], completed: false, err: Some(e.to_string()) },
+                Ok(n) => OpOut { items: vec![n, hash_str(&format!("{buf:?}"))], completed: true, err: None, after_err: vec![] },
+                Err(e) => OpOut { items: vec![], completed: false, err: Some(e.to_string()), after_err: vec![] },
             }
         }
     }
